@@ -812,13 +812,19 @@ def _ln(m, c):
 @model("f64::sqrt")
 def _sqrt(m, c):
     x = m.strip(c.args[0])
+    return fsqrt(m, x)
+
+
+def fsqrt(m, x):
     if not x.sym():
         import math
-        r = Fraction(math.isqrt(x.v.numerator), 1) / Fraction(math.isqrt(x.v.denominator), 1) if x.v >= 0 else None
-        if r is not None and r * r == x.v:
-            return F(r)
-    s = m.fresh_real("sqrt")
+        if x.v >= 0:
+            r = Fraction(math.isqrt(x.v.numerator), math.isqrt(x.v.denominator))
+            if r * r == x.v:
+                return F(r)
+    s = m.ufun("sqrt", x.z())
     m.define(z3.Implies(x.z() >= 0, z3.And(s >= 0, s * s == x.z())))
+    m.axioms.append("sqrt(x)>=0 and sqrt(x)^2=x for x>=0")
     return F(s)
 
 
@@ -843,7 +849,7 @@ def _fsignum(m, c):
     if isinstance(x, F):
         if not x.sym():
             return F(1 if x.v >= 0 else -1)
-        return F(z3.If(x.v >= 0, rv(1), rv(-1)))
+        return F(z3.If(bz(f_cmp("ge", x, F(0))), rv(1), rv(-1)))
     if is_sym(x):
         return z3.If(x > 0, 1, z3.If(x == 0, 0, -1))
     return (x > 0) - (x < 0)
